@@ -67,7 +67,7 @@ pub fn run(thorough: bool, mut rng: Rng, mut out: Out) {
             out.r(&format!("leaks.corpus {}", name), clean, &format!("{} | {}", d, ev));
         }
     }
-    let n = if thorough { 5000 } else { 400 };
+    let n = if thorough { 20000 } else { 2000 };
     for k in 0..n {
         let n_ops = rng.range(3, if thorough { 40 } else { 14 }) as usize;
         let script = gen_script_ex(&mut rng, n_ops, false, k % 2 == 0, true, k % 4 == 1);
